@@ -25,8 +25,7 @@ func init() {
 	corpusRunners["C01"] = corpusC01
 	runners["C02"] = runC02
 	corpusRunners["C02"] = corpusC02
-	runners["C03"] = runC03
-	corpusRunners["C03"] = corpusC03
+	// C03 is registered in c03.go (runC03All), which adds the producers other than ingest
 }
 
 // NewRefStore opens a fresh in-memory SQLite ref store.
